@@ -447,8 +447,10 @@ func tvFile() []byte {
 // independent decode (member names compared case-insensitively, as Go's JSON
 // struct decoding does).
 func declared(b []byte) (typ, version string, isJSON bool) {
+	// the first JSON value of the stream, as a streaming decoder sees it: data after the value is
+	// not part of the declaration (detection is not a validator of what follows)
 	var top map[string]json.RawMessage
-	if err := json.Unmarshal(b, &top); err != nil {
+	if err := json.NewDecoder(bytes.NewReader(b)).Decode(&top); err != nil {
 		return "", "", false
 	}
 	get := func(name string) string {
